@@ -1,5 +1,6 @@
 import PdtVerif.Lemmas.StringMatch
 import PdtVerif.Lemmas.StringMatchBatch
+import PdtVerif.Lemmas.StringMatchOracle
 /-!
 # C01 — edit distance is the weighted Levenshtein distance, per pair and per prefix
 
@@ -19,6 +20,11 @@ The second half (`C01_delmat_inf*`, `C01_batch_*`) is about the TENSOR-level mod
 batch as in the code, `del_mat` with explicit `+inf` entries, `batch_first` as a transposition,
 the batch-size `RuntimeError`): every entry of its result is the per-column model on that
 sequence of the batch, hence everything above holds for every pair of every batch in either layout.
+
+The last part: `C01_oracle_prefix` (the one-pass oracle the driver uses for the long pairs sampled from
+large batches is the weighted Levenshtein distance of every prefix) and `C01_lens_ties` /
+`C01_batch_lens_ties` (`_lens_from_eos` gives the first-eos index whatever maximal index `torch.max`
+reports — the tie-break is immaterial, so the "first hit" reading of the tensor-level model loses nothing).
 
 All statements hold for every cost triple (no sign condition is needed: the uniform-cost
 shortcut carries its own `> 0` test), every token type, every `R`, `H`, and every eos setting.
@@ -481,5 +487,66 @@ example : Wide 2 [[(0 : Rat), 0], [1, 1], [2, 2]] := by simp [Wide]
 -- del_mat for d = 2, R + 1 = 3, with its +inf entries
 example : delMat 2 3 = [[some 0, none, none], [some 2, some 0, none], [some 4, some 2, some 0]] := by
   decide +kernel
+
+/-! ### The one-pass prefix oracle; `_lens_from_eos` under any tie-break of `torch.max` -/
+
+/-- **C01_oracle_prefix**: the list the driver computes for a long pair with ONE run of the textbook DP
+(`prefixDists`, keeping every intermediate row) has `|hyp| + 1` entries and entry `k` is the weighted
+Levenshtein distance between `ref` and the length-`k` prefix of `hyp`: attained by an edit script, and no
+script is cheaper. -/
+theorem C01_oracle_prefix (c : Costs) (ref hyp : List α) :
+    (prefixDists c ref hyp).length = hyp.length + 1 ∧
+    ∀ k, k ≤ hyp.length → IsLevDist c ref (hyp.take k) ((prefixDists c ref hyp).getD k 0) := by
+  refine ⟨prefixDists_length c ref hyp, fun k hk => ?_⟩
+  rw [prefixDists_eq, List.getD_eq_getElem?_getD, List.getElem?_map,
+    List.getElem?_range (by omega)]
+  exact dpDist_isLevDist c ref (hyp.take k)
+
+/-- **C01_lens_ties**: `_lens_from_eos` on one column — `mask = tok.eq(eos)`, `x = cumsum(mask)`,
+`max_, argmax = (x.eq(1) & mask).max(dim)`, `argmax.masked_fill(max_.eq(0), L)` — where `argmax` is ANY
+index at which `x.eq(1) & mask` attains its maximum (the only thing `torch.max` promises; in a column
+without eos every index qualifies): the result is `|cut|` without `include_eos`, i.e. the index of the
+first eos, and the padded length when there is none. -/
+theorem C01_lens_ties (eos : α) (tok : List α) (argmax : Nat)
+    (h : tok ≠ [] → IsArgmax (hitCol eos tok) argmax) :
+    lensColAny eos tok argmax = (cut (some eos) false tok).length := by
+  rw [lensColAny_eq eos tok argmax h, cut_length]
+  rfl
+
+/-- The contract is satisfiable on every non-empty column, and in a column without eos every position
+satisfies it (the ties the theorem is about do occur). -/
+theorem C01_lens_ties_nonvacuous (eos : α) (tok : List α) (hne : tok ≠ []) :
+    (∃ i, IsArgmax (hitCol eos tok) i) ∧
+    (firstEos eos tok = tok.length → ∀ i, i < tok.length → IsArgmax (hitCol eos tok) i) :=
+  ⟨exists_isArgmax eos tok hne, fun hno i hi => isArgmax_of_no_eos eos tok hno i hi⟩
+
+/-- **C01_batch_lens_ties**: the same on the whole `(L, N)` tensor. Whatever vector of indices
+`(x.eq(1) & mask).max(0)` reports — one admissible index per column — `_lens_from_eos` is the
+tensor-level model's `lensFromEosB` (which reads the maximum as "first hit"), and its entry `n` is the
+first-eos index of column `n`. So nothing in `C01_batch_*` depends on how `torch.max` breaks ties. -/
+theorem C01_batch_lens_ties (eos : α) (N : Nat) (tok : List (List α)) (hW : Wide N tok) (argmax : List Nat)
+    (hA : tok ≠ [] → ∀ n, n < N → IsArgmax (colOf (hitB eos N tok) n false) (argmax.getD n 0)) :
+    lensFromEosAny eos N tok argmax = lensFromEosB eos N tok ∧
+    ∀ n, n < N → ∀ dα : α,
+      (lensFromEosAny eos N tok argmax).getD n 0 = (cut (some eos) false (colOf tok n dα)).length := by
+  have h := lensFromEosAny_eq eos N tok hW argmax hA
+  refine ⟨h, fun n hn dα => ?_⟩
+  rw [h, lensFromEosB_getD eos N n hn tok hW dα, cut_length]
+  rfl
+
+-- the prefix oracle on a concrete pair: distances of [7,7,2] to [], [7], [7,2] under (1/2, 1, 3/2)
+example : prefixDists ⟨1/2, 1, 3/2⟩ [(7 : Int), 7, 2] [7, 2] = [3, 2, 1] := by decide +kernel
+-- a column with eos 2 at position 2 (and again later): the only admissible index is 2
+example : hitCol (2 : Int) [7, 7, 2, 9, 2] = [false, false, true, false, false] := by decide
+example : IsArgmax (hitCol (2 : Int) [7, 7, 2, 9, 2]) 2 := ⟨by decide, by decide⟩
+example : lensColAny (2 : Int) [7, 7, 2, 9, 2] 2 = 2 := by decide
+-- a column without eos: indices 0 and 3 are both admissible and both give the padded length 4
+example : IsArgmax (hitCol (2 : Int) [7, 7, 5, 9]) 0 ∧ IsArgmax (hitCol (2 : Int) [7, 7, 5, 9]) 3 :=
+  ⟨⟨by decide, by decide⟩, ⟨by decide, by decide⟩⟩
+example : lensColAny (2 : Int) [7, 7, 5, 9] 0 = 4 ∧ lensColAny (2 : Int) [7, 7, 5, 9] 3 = 4 := by decide
+-- the tensor: a 3 x 2 batch (columns [7,2,2] and [5,9,9]), reported indices [1, 2] (column 1 has no eos)
+example : hitB (2 : Int) 2 [[7, 5], [2, 9], [2, 9]] = [[false, false], [true, false], [false, false]] := by
+  decide
+example : lensFromEosAny (2 : Int) 2 [[7, 5], [2, 9], [2, 9]] [1, 2] = [1, 3] := by decide
 
 end PdtVerif.StringMatch
